@@ -95,3 +95,13 @@ package synctree
 //@ func (*syncHandler).hasHeads
 //@   requires ot != nil
 //@   ensures [all_heads_known] result <==> (sameHeadSet(ot.Heads(), heads) || ot.HasChanges(heads))
+
+// C11: a peer's full-sync request is decoded and checked for its sub-message before anything is read
+// from it
+//@ func (*github.com/anyproto/any-sync/commonspace/sync/objectsync/objectmessages.Request).ObjectId
+//@   pure
+//@ package github.com/anyproto/any-sync/commonspace/object/tree/synctree
+//@ func (*syncHandler).HandleStreamRequest
+//@   requires s != nil
+//@   assumes s.tree != nil && s.syncClient != nil
+//@   assumes rq != nil ==> ifaceptr(rq) != nil
